@@ -483,6 +483,15 @@ class Arith:
             C = A.copy()
             C -= B
             want = [[ra[0]] + [x - y for x, y in zip(ra[1:], rb_[1:])] for ra, rb_ in zip(a, b)]
+        elif op in ("isub_self", "iadd_self"):
+            # both operands are the same object
+            C = A.copy()
+            if op == "isub_self":
+                C -= C
+                want = [[r[0]] + [v - v for v in r[1:]] for r in a]
+            else:
+                C += C
+                want = [[r[0]] + [v + v for v in r[1:]] for r in a]
         elif op == "rotate":
             # energy, |L| and pair distances invariant under a rotation of the whole simulation
             R = rebound.Rotation(angle=s, axis=[0.3, -1.0, 0.5])
@@ -608,7 +617,7 @@ def run(ctx):
             continue
         for sig, what in r[1]:
             ctx.violation(sig, what, {"kind": "frame", "task": list(t)})
-    at = [("multiply", sc) for sc in ((2.0, 3.0), (1.0, -1.0), (0.5, 2.0), (-1.0, 1.0), (1e-3, 7.25))] + [(op, s) for op in ("mul", "rmul", "div", "imul") for s in (2.0, -1.0, 0.0 if False else 0.5, 3.0, 1e-3, -7.25)] + [(op, 0) for op in ("add", "sub", "iadd", "isub")] + [("rotate", s) for s in (0.3, 1.0, math.pi, -2.0)]
+    at = [("multiply", sc) for sc in ((2.0, 3.0), (1.0, -1.0), (0.5, 2.0), (-1.0, 1.0), (1e-3, 7.25))] + [(op, s) for op in ("mul", "rmul", "div", "imul") for s in (2.0, -1.0, 0.0 if False else 0.5, 3.0, 1e-3, -7.25)] + [(op, 0) for op in ("add", "sub", "iadd", "isub", "isub_self", "iadd_self")] + [("rotate", s) for s in (0.3, 1.0, math.pi, -2.0)]
     ares = pool.run_tasks(Arith(rebound), at, timeout=60, chunk=1)
     for t, r in zip(at, ares):
         if r[0] != "ok":
